@@ -27,6 +27,7 @@ import Golib.ZipSender.Theorems
 import Golib.ZipSender.Answers
 import Golib.ZipSender.Loop
 import Golib.ZipSender.LogSink
+import Golib.ZipSender.Timing
 
 namespace C16
 open ZipSender
@@ -159,6 +160,48 @@ theorem decodable_logsink (hr : v.sound = true) (U : Unzip Z) (fac : Packs.Facto
     ∀ p ∈ emitted v Z LogSink.codec (init st ans) h, (∀ x ∈ p.recs, LogSink.WFRec x) →
       decodePack U (LogSink.decoder fac hf) p = some (p.recs.map (fun x => (LogSink.pv x).carried), []) :=
   decodable v Z LogSink.codec hr U (LogSink.decoder fac hf) st ans h
+
+/-- **"decodably", end to end**: the payload of every emitted pack is — compressed when flagged —
+    exactly C03's container encoding `writePacks` of its records (each: 16-bit type code, header,
+    body in the LogSinkPack layout), nothing else -/
+theorem payload_is_c03_encoding (hr : v.sound = true) (st : Settings) (ans : List Bool) (h : List (In Layout.Rec)) :
+    ∀ p ∈ emitted v Z LogSink.codec (init st ans) h,
+      p.payload = (if p.zipped then Z.zip (Packs.writePacks (p.recs.map LogSink.pv))
+                   else Packs.writePacks (p.recs.map LogSink.pv)) ∧
+      p.count = p.recs.length := by
+  intro p hp
+  obtain ⟨st', hb⟩ := emitted_built v Z LogSink.codec h (init st ans) hr p hp
+  rw [← LogSink.encMany_is_writePacks]
+  exact ⟨hb.payload, count_matches v Z LogSink.codec hr st ans h p hp⟩
+
+/-- … hence the receiving side — `ZipPack.GetRecords` as modelled and proved in C03
+    (`Packs.Zip.getRecords`: read `RecordCount` packs, stamp each with the container's
+    Pcode/Oid/Okind/Onode) — obtains exactly the records, in order, for all record contents within
+    the writer's guards; gzip's round trip is the single hypothesis -/
+theorem receiver_gets_records (hr : v.sound = true) (U : Unzip Z) (fac : Packs.Factory) (hf : LogSink.Fac fac)
+    (hdr : Layout.Hdr) (st : Settings) (ans : List Bool) (h : List (In Layout.Rec)) :
+    ∀ p ∈ emitted v Z LogSink.codec (init st ans) h, (∀ x ∈ p.recs, LogSink.WFRec x) →
+      (if p.zipped then U.unzip p.payload else some p.payload).bind
+        (fun raw => Packs.Zip.getRecords fac ⟨hdr, raw, p.count⟩)
+      = some (p.recs.map (fun x => Packs.stamp hdr (LogSink.pv x).carried)) := by
+  intro p hp hw
+  obtain ⟨hpay, hcnt⟩ := payload_is_c03_encoding v Z hr st ans h p hp
+  have hz := Packs.zip_records Layout.valueRT fac ⟨hdr, [], 0⟩ (p.recs.map LogSink.pv)
+    (fun q hq => by
+      obtain ⟨x, hx, rfl⟩ := List.mem_map.mp hq
+      exact LogSink.pv_ok fac hf x (hw x hx))
+  simp only [Packs.Zip.setRecords, List.length_map, List.map_map, Function.comp_def] at hz
+  rw [hpay, hcnt]
+  by_cases hzp : p.zipped = true
+  · simp only [hzp, if_true, U.rt, Option.bind_some]; exact hz
+  · simp only [hzp, Bool.false_eq_true, if_false, Option.bind_some]; exact hz
+
+/-- the tag section travels as it is: the record's `TagHash` field with whatever value the caller
+    left in it (0 excepted, see notes) and its `Tags` table — a stale hash does not change the tags
+    the receiver decodes (`decodable_logsink` delivers `(pv x).carried`, which holds both) -/
+theorem tags_travel_with_any_hash (x : Layout.Rec) :
+    ("TagHash", x "TagHash") ∈ (LogSink.pv x).carried.2 ∧ ("Tags", x "Tags") ∈ (LogSink.pv x).carried.2 :=
+  LogSink.carried_hash_and_tags x
 
 /-- the non-emptiness hypothesis of `exactly_once_direct` / `all_emitted_at_stop` holds for it -/
 theorem logsink_encoding_nonempty (x : Layout.Rec) : LogSink.codec.enc x ≠ [] := LogSink.enc_ne_nil x
@@ -303,31 +346,62 @@ where
         · rfl
 
 include hr in
-/-- the idle timeout: loop at its `select`, not cancelled, nothing queued, producers silent —
-    GetTimeout runs out of its `k + 1` polls and the batch is flushed -/
-theorem loop_idle_timeout_flushes (l : LState ρ) (k : Nat) (hpc : l.pc = .top) (hc : l.cancelled = false)
-    (hq : l.core.queue = []) :
-    (lrun v Z C l (.select k :: List.replicate (k + 1) .poll)).1.core.bufLen = 0 ∧
-    (lrun v Z C l (.select k :: List.replicate (k + 1) .poll)).1.pc = .top :=
-  idle_timeout_flushes v Z C hr l k hpc hc hq
+/-- **the waiting-time clause over arbitrary clock readings**: the loop at its `select` reads the clock
+    (`t0`) and enters GetTimeout with the waiting time in force; nothing is queued and the producers
+    are silent; the rounds read the clock at arbitrary values `nows` before the deadline (the clock may
+    stand still or jump back) and then at some `t1` at or after it.  The batch is flushed in that last
+    round and not before, and `t1 - t0` is at least the waiting time in force. -/
+theorem loop_idle_timeout_flushes (l : LState ρ) (t0 t1 : Int) (nows : List Int) (hpc : l.pc = .top)
+    (hc : l.cancelled = false) (hq : l.core.queue = [])
+    (hb : ∀ n ∈ nows, n < t0 + l.core.settings.maxWait) (hd : t0 + l.core.settings.maxWait ≤ t1) :
+    let r := lrun v Z C l (.select t0 :: (nows.map .poll ++ [.poll t1]))
+    r.1.core.bufLen = 0 ∧ r.1.pc = .top ∧ r.2 = (sendAndClear v Z C l.core).2 ∧
+    t1 - t0 ≥ l.core.settings.maxWait :=
+  idle_timeout_flushes v Z C hr l t0 t1 nows hpc hc hq hb hd
 
-/-- GetTimeout always returns: `n` polls bring the loop back to its `select`, whatever happened before -/
-theorem loop_polls_reach_top (n : Nat) (l : LState ρ) (hpc : l.pc = .polling n) (hn : n ≠ 0) :
-    (lrun v Z C l (List.replicate n .poll)).1.pc = .top :=
-  polls_reach_top v Z C n l hpc hn
+/-- the idle flush, both directions, for one round of GetTimeout: with nothing queued the round that
+    reads the clock `now` flushes exactly when `timeto ≤ now`; earlier rounds change nothing -/
+theorem loop_idle_flush_iff_due (l : LState ρ) (timeto now : Int) (hpc : l.pc = .polling timeto) (hq : l.core.queue = []) :
+    (timeto ≤ now → lstep v Z C l (.poll now) =
+        ({ l with core := (sendAndClear v Z C l.core).1, pc := .top }, (sendAndClear v Z C l.core).2)) ∧
+    (now < timeto → lstep v Z C l (.poll now) = (l, [])) :=
+  idle_flush_iff_due v Z C l timeto now hpc hq
+
+/-- GetTimeout always returns once the clock has reached the deadline, whatever happened before -/
+theorem loop_due_poll_returns (l : LState ρ) (timeto now : Int) (hpc : l.pc = .polling timeto) (hd : timeto ≤ now) :
+    (lstep v Z C l (.poll now)).1.pc = .top :=
+  due_poll_returns v Z C l timeto now hpc hd
+
+include hr in
+/-- **the size and time clauses over whole histories** (no configuration update in the history; any
+    client answers, any failing records): in every reachable state the batch under construction is
+    below the buffer limit in force (or empty), and every record in it is younger than the waiting
+    time in force, counted from the batch's first record (`firstTime`; a record with time 0 does not
+    start the count — the code's sentinel) -/
+theorem batch_within_limits (hne : ∀ r, C.enc r ≠ []) (st : Settings) (ans : List Bool) (h : List (In ρ))
+    (hc : ∀ i ∈ h, isConfig i = false) :
+    let s := final v Z C (init st ans) h
+    ((s.bufLen : Int) < st.maxBuf ∨ s.bufLen = 0) ∧
+    (s.firstTime = 0 → ∀ r ∈ s.buf, C.time r = 0) ∧
+    (s.firstTime ≠ 0 → ∀ r ∈ s.buf, C.time r = 0 ∨ C.time r = s.firstTime ∨ C.time r - s.firstTime < st.maxWait) := by
+  have hb := history_BInv v Z C hr hne h (init st ans) hc (BInv_init C st ans)
+  have hs := (settings_const v Z C h hr (init st ans) hc).1
+  unfold BInv at hb
+  rw [hs] at hb
+  exact hb
 
 /-- cancellation (repaired code): at its next `select` the loop drains the queue into the last
     batch, flushes it and returns -/
-theorem loop_cancel_exits (l : LState ρ) (k : Nat) (hi : LInv l) (hpc : l.pc = .top) (hc : l.cancelled = true) :
+theorem loop_cancel_exits (l : LState ρ) (k : Int) (hi : LInv l) (hpc : l.pc = .top) (hc : l.cancelled = true) :
     let l' := (lstep .fixed Z C l (.select k)).1
     l'.pc = .exited ∧ l'.core.queue = [] ∧ l'.core.bufLen = 0 ∧ l'.core.stopped = true :=
   cancel_exits .fixed Z C rfl rfl l k hi hpc hc
 
 /-- the verification hook `StepForVerif` that the deterministic harness drives is exactly one
-    iteration of the modelled loop whose GetTimeout allows a single poll -/
-theorem hook_step_is_loop_body (l : LState ρ) (hi : LInv l) (hpc : l.pc = .top) (hc : l.cancelled = false) :
-    lrun v Z C l [.select 0, .poll] = hookStep v Z C l :=
-  hookStep_is_loop_body v Z C l hi hpc hc
+    iteration of the modelled loop in which the first round already finds the deadline reached -/
+theorem hook_step_is_loop_body (l : LState ρ) (t : Int) (hi : LInv l) (hpc : l.pc = .top) (hc : l.cancelled = false) :
+    lrun v Z C l [.select t, .poll (t + l.core.settings.maxWait)] = hookStep v Z C l :=
+  hookStep_is_loop_body v Z C l t hi hpc hc
 
 /-! ### defaults and configuration -/
 
@@ -486,11 +560,11 @@ example : (emitted .fixed xZ fC (init ⟨5000, 1000, 4, 3⟩)
 example : (emitted .fixed xZ xC (init ⟨5000, 1000, 5, 3⟩ [false, false, false, false, false, false]) demo).map (·.recs) =
     (emitted .fixed xZ xC (init ⟨5000, 1000, 5, 3⟩) demo).map (·.recs) := by decide
 
-/-- a schedule of the loop machine: two producers' records, a GetTimeout that polls three times
+/-- a schedule of the loop machine: two producers' records, a GetTimeout whose clock even jumps back
     before it finds the first one, an idle timeout, a cancellation noticed at the next select -/
 example : ((lrun .fixed xZ xC (linit ⟨5000, 1000, 100, 3⟩)
-      [.select 2, .poll, .poll, .add (1000, [1, 2]), .poll, .add (1001, [3]), .select 0, .poll,
-       .select 1, .poll, .poll, .add (1002, [4]), .cancel, .select 0]).2.map (·.recs)) =
+      [.select 100, .poll 100, .poll 90, .add (1000, [1, 2]), .poll 5000, .add (1001, [3]), .select 200, .poll 200,
+       .select 300, .poll 5299, .poll 5300, .add (1002, [4]), .cancel, .select 9000]).2.map (·.recs)) =
     [[(1000, [1, 2]), (1001, [3])], [(1002, [4])]] := by decide
 
 section
